@@ -12,6 +12,20 @@ Structure of the result:
                      list-with-gaps machine `Spec`: sequence, every cursor, every `next()`;
 * `C11_terminates`, `C11_only_members`, `C11_getitem_len_contains`, `C11_tombstone_*`;
 * `C11_spec_*`       the English clauses, proved on the abstract machine (pure list facts).
+
+How the English clauses reach the pointer structure.  `C11_refine_step` is an *equation*: for every
+operation (any arguments: present / absent / repeated values, the anchor itself, several elements)
+and every cursor, `abs (apply s op).1 d c = (Spec.apply (abs s d c) op).1`; `C11_refine_rest` says
+`rest s d c = Spec.rest` of that abstraction.  So whatever is proved about `Spec.apply` — whose
+public operations are by definition sequences of the two primitive events `removeIdx` /
+`insertIdx` of `C11_spec_rest_remove` / `C11_spec_rest_insert` (a present value is removed first,
+multi-element inserts are one primitive pair per element) — holds verbatim for `apply`/`rest`.
+Stated directly on `apply`/`rest`/`toList` are: `C11_untouched_step` and
+`C11_untouched_exactly_once_in_order` (all operations, all argument shapes), `C11_resume_current`
+(the current node is removed or moved anywhere, by any operation), `C11_next_rest`.  The
+"inserted after is seen / before is skipped" clause is stated on the primitive insert
+(`C11_spec_rest_insert`, `Spec.seen`) and transfers through `C11_refine_step`; it is not restated
+per public operation.
 -/
 import IrVerif.Lemmas.LinkedSetWF
 import IrVerif.Lemmas.LinkedSetRec
@@ -265,6 +279,25 @@ theorem C11_untouched_step {s : LSet} (h : WF s) (op : Op) (d : Dir) (c : Cursor
     rw [← r1]; rfl
   rw [e1, u]; rfl
 
+/-- **C11_resume_current**: when the node a generator is parked on is removed or moved — by any
+operation that touches only that node: `remove x`, `append x` (move to the end),
+`insert_after(a, [x])` / `insert_before(a, [x])` (move next to any anchor) — then, apart from
+possibly meeting `x` again at its new place, the generator still yields exactly what followed
+`x` at its original place, in the same order. -/
+theorem C11_resume_current {s : LSet} (h : WF s) (d : Dir) (b x : Nat) (hb : val s b = some x)
+    (hbv : (Cursor.at b).Valid s) (op : Op) (ht : touched op = [x]) :
+    untouched [x] (rest (apply s op).1 d (.at b)) = rest s d (.at b) := by
+  have u := C11_untouched_step h op d (.at b) hbv
+  rw [ht] at u
+  rw [u]
+  obtain ⟨bs, hi⟩ := h
+  have hx := hi.current_not_in_rest d hb
+  simp only [untouched]
+  apply List.filter_eq_self.2
+  intro y hy
+  have : y ≠ x := by rintro rfl; exact hx hy
+  simpa using this
+
 theorem untouched_append (T l1 l2 : List Nat) :
     untouched T (l1 ++ l2) = untouched T l1 ++ untouched T l2 := by
   simp [untouched]
@@ -291,7 +324,8 @@ theorem C11_untouched_exactly_once_in_order (d : Dir) (es : List Ev) :
     ∀ {s : LSet} (_ : WF s) (c : Cursor) (_ : c.Valid s),
       let r := runHist d s c es
       WF r.1 ∧ r.2.1.Valid r.1 ∧
-      untouched (touchedAll es) (r.2.2 ++ rest r.1 d r.2.1) = untouched (touchedAll es) (rest s d c) := by
+      untouched (touchedRun d s c es) (r.2.2 ++ rest r.1 d r.2.1) =
+        untouched (touchedRun d s c es) (rest s d c) := by
   induction es with
   | nil => intro s h c hc; exact ⟨h, hc, by simp [runHist]⟩
   | cons e es ih =>
@@ -301,16 +335,25 @@ theorem C11_untouched_exactly_once_in_order (d : Dir) (es : List Ev) :
       obtain ⟨_, _, r3⟩ := C11_refine_step h o d c hc
       obtain ⟨w, v, u⟩ := ih (C11_rep_step h o) c r3
       refine ⟨w, v, ?_⟩
-      simp only [runHist, touchedAll] at u ⊢
-      have u1 := untouched_mono (T' := touched o ++ touchedAll es) (fun x hx => by simp [hx]) u
-      have u2 := untouched_mono (T' := touched o ++ touchedAll es) (fun x hx => by simp [hx])
-        (C11_untouched_step h o d c hc)
-      rw [u1, u2]
+      simp only [runHist, touchedRun] at u ⊢
+      cases hfl : (apply s o).2 with
+      | true =>
+        simp only [if_true]
+        have u1 := untouched_mono (T' := touched o ++ touchedRun d (apply s o).1 c es)
+          (fun x hx => by simp [hx]) u
+        have u2 := untouched_mono (T' := touched o ++ touchedRun d (apply s o).1 c es)
+          (fun x hx => by simp [hx]) (C11_untouched_step h o d c hc)
+        rw [u1, u2]
+      | false =>
+        have e := apply_raised_unchanged h o hfl
+        simp only [Bool.false_eq_true, if_false, List.nil_append]
+        rw [e] at u ⊢
+        exact u
     | next =>
       obtain ⟨n1, n2, n3⟩ := C11_refine_next h d c hc
       have hr := C11_next_rest h d c hc
       obtain ⟨w, v, u⟩ := ih h (iterNext s d c).1 n3
-      simp only [touchedAll]
+      simp only [touchedRun]
       have n1' : absCur s d (iterNext s d c).1 = (Spec.next (toList s) d (absCur s d c)).1 := by
         have := congrArg Spec.St.c n1
         simpa [abs, Spec.step] using this
@@ -390,28 +433,51 @@ theorem C11_rec_only_members {w : RWorld} {d : Dir} {rk : Nat → Nat} (hw : Wor
   recNext_ok hw hr f st ok
 
 /-- **C11_rec_terminates**: with no further edits and a well-founded nesting, the recursive
-iterator — in any consistent state, however its frames are parked — runs to StopIteration: the
-drain ends with `stop` for every sufficiently large step bound (never `raised`), with one fixed
-output stream, and every single `next()` returns a yield or StopIteration. -/
+iterator — in any consistent state, however its frames are parked — runs to StopIteration: there
+is one output stream `outs` such that the drain returns `(outs, stop)` (never `raised`) for every
+step bound `f ≥ 2 * outs.length + st.length + 1`, and every single `next()` with such a bound
+returns a yield or StopIteration. -/
 theorem C11_rec_terminates {w : RWorld} {d : Dir} {rk : Nat → Nat} (hw : WorldWF w)
     (hr : Ranked w d rk) {st : List RFrame} (ok : StackOK w d rk st) :
-    ∃ n outs, ∀ f, n ≤ f →
+    ∃ outs, ∀ f, 2 * outs.length + st.length + 1 ≤ f →
       recDrain w d f st = (outs, .stop) ∧
       ((recNext w d f st).2.2 = .stop ∨ ∃ v, (recNext w d f st).2.2 = .yield v) := by
   obtain ⟨K, hK⟩ := exists_rank_bound rk st
   obtain ⟨outs, hs⟩ := steps_stack hw hr K st ok hK
   obtain ⟨n, hn⟩ := hs.drain_all
-  exact ⟨n, outs, fun f hf => ⟨hn f hf, recNext_of_drain w d f st outs (hn f hf)⟩⟩
+  refine ⟨outs, fun f hf => ?_⟩
+  have hb := recDrain_bound w d n st outs (hn n (Nat.le_refl _))
+  have hf' := recDrain_mono w d hb (by have := lastCount_le st; omega : 2 * outs.length + lastCount st + 1 ≤ f)
+  exact ⟨hf', recNext_of_drain w d f st outs hf'⟩
 
 /-- **C11_rec_preorder**: with no edits, a fresh `RecursiveGraphIterator(g)` produces exactly the
-pre-order stream `specTop`: `enter g`, then each node of `g` in order (reverse order for
+pre-order stream `specTop` — `enter g`, then each node of `g` in order (reverse order for
 `reverse=True`) immediately followed by the predicate call and, unless it returns False, by the
 complete visit of each of its subgraphs in attribute order (`GRAPHS` lists reversed for
-`reverse=True`), then `exit g`. -/
+`reverse=True`), then `exit g` — within `2 * (length of that stream) + 2` steps. -/
 theorem C11_rec_preorder {w : RWorld} {d : Dir} {rk : Nat → Nat} (hw : WorldWF w)
     (hr : Ranked w d rk) (k g : Nat) (hk : rk g ≤ k) :
-    ∃ n, ∀ f, n ≤ f → recDrain w d f (recStart g) = (specTop w d k g, .stop) :=
-  (steps_top hw hr k g hk).drain_all
+    ∀ f, 2 * (specTop w d k g).length + 2 ≤ f → recDrain w d f (recStart g) = (specTop w d k g, .stop) := by
+  obtain ⟨n, hn⟩ := (steps_top hw hr k g hk).drain_all
+  intro f hf
+  have hb := recDrain_bound w d n _ _ (hn n (Nat.le_refl _))
+  have hl : lastCount (recStart g) ≤ 1 := by
+    have := lastCount_le (recStart g)
+    simpa [recStart] using this
+  exact recDrain_mono w d hb (by omega)
+
+/-- **C11_rec_history**: over any history of `next()` calls and edits of the node sequences of the
+graphs (nesting fixed: attributes are not edited; every inserted node belongs to the graph it is
+inserted into, `home`), starting from any consistent state (e.g. a fresh iterator,
+`C11_rec_start`): every `next()` yields only current members of the graph it yields from, and at
+the end the world and the iterator are consistent again and the nesting is still well founded
+(`Ranked` is re-established — it follows from the static `StaticRanked` and `Homed`, which edits
+preserve), so `C11_rec_terminates` applies to the final state. -/
+theorem C11_rec_history (d : Dir) (fuel : Nat) (rk home : Nat → Nat) (es : List REv) (w : RWorld)
+    (st : List RFrame) (hw : WorldWF w) (hh : Homed w home) (hs : StaticRanked w d rk home)
+    (ok : StackOK w d rk st) (adm : Admissible w.sets.length home es) :
+    RecHistInv d fuel rk home w st es :=
+  rec_history d fuel rk home es w st hw hh hs ok adm
 
 /-- **C11_rec_refine_step**: an edit of the node sequence of graph `g` keeps the world and every
 iterator stack consistent, and every frame parked in `g` — at any depth of any recursive
@@ -501,5 +567,39 @@ example : Ranked exWorld .fwd (fun g => 1 - g) := by
       rw [this]; decide)
 
 example : recDrain exWorld .fwd 100 (recStart 0) = (specTop exWorld .fwd 1 0, .stop) := by decide
+
+-- the hypotheses of C11_rec_history: nodes 1, 2 live in graph 0, node 11 in graph 1
+def exHome (v : Nat) : Nat := if v < 10 then 0 else 1
+
+example : Homed exWorld exHome := by
+  intro g v hv
+  match g, hv with
+  | 0, hv =>
+    have : toList (exWorld.setOf 0) = [1, 2] := by decide
+    rw [this] at hv; simp at hv; rcases hv with rfl | rfl <;> rfl
+  | 1, hv =>
+    have : toList (exWorld.setOf 1) = [11] := by decide
+    rw [this] at hv; simp at hv; subst hv; rfl
+  | g + 2, hv =>
+    have : exWorld.setOf (g + 2) = empty := by simp [RWorld.setOf, exWorld, List.getD]
+    rw [this, C11_rep_empty.2] at hv; exact absurd hv (by simp)
+
+example : StaticRanked exWorld .fwd (fun g => 1 - g) exHome := by
+  intro v _ h hh
+  have hv1 : v = 1 := by
+    apply Classical.byContradiction
+    intro hne
+    have : (exWorld.attrs.lookup v) = none := by
+      simp only [exWorld, List.lookup]
+      have : (v == 1) = false := by simp [hne]
+      simp [this]
+    simp [RWorld.visit, RWorld.attrsOf, this] at hh
+  subst hv1
+  have hh1 : h = 1 := by simpa [RWorld.visit, RWorld.attrsOf, exWorld, List.lookup] using hh
+  subst hh1
+  decide
+
+example : Admissible exWorld.sets.length exHome [.next, .edit 0 (.remove 1), .edit 1 (.append 12), .next] := by
+  simp [Admissible, touched, exWorld, exHome]
 
 end IrVerif.LinkedSet
